@@ -46,7 +46,7 @@ def loadOne (T : Tables) : RM RObj :=
   RM.bind (liftE (allocE [natom])) fun _ =>
   RM.bind (liftE (allocE [natom, 3])) fun _ =>
   RM.bind (repeatN (atomStep T) natom.toNat) fun _ =>
-  RM.pure { atnums := some [natom.toNat], atcoords := some [natom.toNat, 3] }
+  RM.pure { atnums := some [natom.toNat], atcoords := some [natom.toNat, 3], hasTitle := true }
 
 def read (T : Tables) (ls : List Str) : Out RObj := run (loadOne T) ls
 
